@@ -9,6 +9,18 @@ CLAIMED = {
    "deterministic simulation: seeded operation histories on the real Stack vs a Vec+capacity reference model, with capacity-change / overrunning-iterator / huge-range fault injection, minimised replay",
    "Seeded search over operation histories (<=40 ops, 14 op kinds, capacities 0..6/64/MAX, two element types) with the model compared after every operation; sampled, not exhaustive. Right level: the property quantifies over histories of any length and the defects of interest need a 2-3 step sequence (e.g. lower the maximum, then push).",
    "Trusted: the Vec+capacity model in sim/checks/src/bin/c04.rs; corners where the statement is silent are accepted either way (DESIGN §8)."),
+ "C01": ("vmsim", "exploration", "DESIGN §5 C01",
+   "deterministic simulation: seeded Push programs run step by step on the real interpreter and refined against an independent reference interpreter (pushmodel), with capacity / step-budget / pause-rebuild-resume fault injection and real-loop cross-checks",
+   "Refinement of the real VM against an executable model after every instruction step, over seeded programs covering every instruction variant, boundary literals, capacity regimes and step limits; sampled, not exhaustive. Right level: the statement quantifies over all programs, inputs and limits; the defects of interest need specific operand/stack configurations.",
+   "Trusted: pushmodel (sim/checks/src/pushmodel.rs, written from the statement and the rustdoc action tables, no shared helpers with the implementation); allowed-outcome sets are widened exactly where the statement is silent (DESIGN §8)."),
+ "C02": ("vmsim", "fault_enumeration", "DESIGN §5 C02",
+   "fault enumeration + fault injection: every instruction variant performed in every boundary state of a 12^4 grid (empty / one short / exactly enough / one below full / full), plus capacity-shrink and operand-starve faults injected between steps of running programs and skip-equals-Noop comparisons on the real loop",
+   "The (instruction x boundary-state) grid is enumerated completely on the real code with the model-free oracle 'Err => carried state == cloned pre-state'; in-flight faults and skip semantics are sampled with seeds. Right level: the quantifier is literally 'every point at which underflow or overflow can strike'.",
+   "Trusted: derived PartialEq of PushState as the notion of 'identical state'; stack values inside a grid cell are sampled from boundary pools."),
+ "C03": ("vmsim", "exploration", "DESIGN §5 C03",
+   "deterministic simulation: loop/growth-biased programs under resource exhaustion, bounded-liveness (returns within L steps, watchdog) and safety invariants at every step boundary, limit sweeps against the stepped run",
+   "Seeded search over growth-biased programs x capacities x step-limit sweeps; monitored invariants: returns without panic/hang, Err only for overflow exactly where the model says a stack would overflow, sizes <= maxima, state(L) == stepped state(min(L,T)). Sampled.",
+   "Trusted: pushmodel for 'would overflow'; nesting depth bounded (stated in evidence assumptions)."),
 }
 
 NOT_APPLICABLE = {
@@ -21,6 +33,7 @@ PENDING_REASON = "check not built yet in this round (planned, see DESIGN §5); n
 
 ENGINES = [
  {"name": "simcore", "path": "sim/simcore", "serves_properties": sorted(CLAIMED), "kind_free_text": "seeded runner (one integer decides everything), SimRng owned random stream with boundary-word fault mode, minimiser, replay files, evidence writer, KL decision rule"},
+ {"name": "vmsim", "path": "sim/checks/src/vmsim.rs", "serves_properties": ["C01", "C02", "C03"], "kind_free_text": "Push VM simulator: harness-stepped and real-loop execution of the real interpreter, resource-fault schedules, pushmodel reference interpreter (sim/checks/src/pushmodel.rs)"},
  {"name": "stacksim", "path": "sim/checks/src/bin/c04.rs", "serves_properties": ["C04"], "kind_free_text": "operation-history simulator for Stack<T> against a Vec+capacity model"},
 ]
 
